@@ -7,6 +7,7 @@ import Driver.Synth
 import Driver.Audio
 import Driver.Seq
 import Driver.Settings
+import Driver.Front
 
 def main (args : List String) : IO UInt32 := do
   let stdin ← IO.getStdin
@@ -19,6 +20,7 @@ def main (args : List String) : IO UInt32 := do
   | ["audio"] => Driver.loop stdin stdout Driver.Audio.step (); return 0
   | ["seq"] => Driver.loop stdin stdout (fun st ws => Driver.Seq.step st (match ws with | "openfiledata" :: r => "opendata" :: r | _ => ws)) ({} : Driver.Seq.St); return 0
   | ["settings"] => Driver.loop stdin stdout Driver.Settings.step' ({} : Opn.Settings.S); return 0
+  | ["front"] => Driver.loop stdin stdout Driver.Front.step (Opn.ChipFront.Ring.empty Driver.Front.cap); return 0
   | ["wopn"] => Driver.loop stdin stdout Driver.Wopn.step (); return 0
   | _ =>
     IO.eprintln "usage: opnmodel <component>   (ops on stdin, one observation line per op on stdout)"
